@@ -72,7 +72,21 @@ fn run_n<const N: usize>(dag: &Dag, points: &[Vec<f32>], skip: &[bool]) -> (Stri
     let d = match catch_unwind(AssertUnwindSafe(|| VmData::<N>::new(&dag.ctx, &dag.roots).unwrap())) { Ok(d) => d, Err(_) => return ("build err".into(), bad) };
     let bc = match Bytecode::new(&d) { Ok(b) => b, Err(_) => return ("bc reserved".into(), bad) };
     let mut text = format!("reg {} | bc {} {} {}", reg_section(&d), bc.reg_count(), bc.mem_count(), bc.data().len());
-    for w in bc.data() { write!(text, " {w}").unwrap(); }
+    {
+        // NaN immediates are printed canonically (NaN payload/sign bits are not modelled)
+        let names: HashMap<u8, &str> = iter_ops().map(|(n, i)| (i, n)).collect();
+        let ws = bc.data();
+        for (k, w) in ws.iter().enumerate() {
+            let mut w = *w;
+            if k >= 2 && k % 2 == 1 && k + 2 < ws.len() {
+                let [opc, _b1, b2, b3] = ws[k - 1].to_le_bytes();
+                let name = names.get(&opc).cloned().unwrap_or("?");
+                let is_f32_imm = !matches!(name, "Mem" | "Input" | "Output") && (b2 == 0xFF || b3 == 0xFF) && w != 0xFF000000;
+                if is_f32_imm && f32::from_bits(w).is_nan() { w = 0x7fc00000; }
+            }
+            write!(text, " {w}").unwrap();
+        }
+    }
     let f = GenericVmFunction::<N>::from(d);
     let order = var_order(&f);
     let tape = f.point_tape(Default::default());
